@@ -177,11 +177,11 @@ def s11_validation_orbits(ctx):
     rng = rng_for(ctx.seed, "S11v")
     G = gadgets()
     names = ["valid_x", "valid_y", "vnode", "multijunction", "stacked", "cuts_itself", "underlap", "overlap", "multicross", "valid_single", "double_overshoot",
-             "double_overshoot", "overshoot_vnode"]
+             "double_overshoot", "overshoot_vnode", "overshoot_multijunction", "overshoot_multijunction"]
     whats = ["order", "sym", "translate", "scale"]
     args, meta = [], []
     ident = random_g(rng, "none")
-    for _ in range(budget(ctx.tier, 24, 400)):
+    for _ in range(budget(ctx.tier, 32, 400)):
         geoms = []
         for i, nm in enumerate(rng.sample(names, rng.randint(2, 4))):
             geoms += [place(g_, 64.0 * i, 0.0) for g_ in G[nm]]
